@@ -65,6 +65,7 @@ func walkCmds(cfg CfgRec) []CmdRec {
 	}
 	add(CmdRec{C: "DATA", A: "arg"})
 	add(CmdRec{C: "DATA", A: "small", P: "all-panic"})
+	add(CmdRec{C: "DATA", A: "small", P: "none-panic"})
 	for _, size := range []string{"small", "big"} {
 		if size == "big" && cfg.MaxBytes == 0 {
 			continue
